@@ -11,6 +11,8 @@ SUITES = {
     "kernels": ("suites.kernels", None, "Kernels.v: gdd, water/temperature/aeration stress, canopy curves"),
     "fco2": ("suites.fco2", None, "Kernels.v fco2 via real initialisation"),
     "rootzone": ("suites.rootzone", None, "Water/RootZone.v"),
+    "api": ("suites.api", "api", "Api.v: the AquaCropModel wrapper as a state machine over CALL SEQUENCES (run_model in both modes with initialize_model / process_outputs, the private reporting flags, "
+            "the array -> DataFrame conversion, the getters), against real models: outcome of every call (return value / exception kind), hidden object state, rows written, summary rows"),
     "clock": ("suites.clock", "clock", "Clock.v: clock logic of run_single_timestep, check_model_is_finished, update_time, run_model"),
     "rainirr": ("suites.rainirr", "rainirr", "Water/RainIrr.v: rainfall_partition, irrigation, growth_stage"),
     "infiltration": ("suites.infiltration", "infiltration", "Water/Infiltration.v"),
